@@ -214,9 +214,12 @@ fn run_sync(seed: u64, mp: u64, n_pay: usize, max_crash: usize) {
 		mon_key = nodes[0].chain_monitor.chain_monitor.get_monitor(chan_id).unwrap().persistence_key().to_string();
 		let mut a2b = 0;
 		for _ in 0..n_pay {
-			let mut r = rng.below(10);
+			let mut r = rng.below(13);
 			if (4..=6).contains(&r) && a2b < 3 {
 				r = 0;
+			}
+			if r >= 10 {
+				r = if r == 10 { 8 } else { 9 };
 			}
 			match r {
 				0..=3 => {
@@ -237,8 +240,15 @@ fn run_sync(seed: u64, mp: u64, n_pay: usize, max_crash: usize) {
 					persister.rec.log.lock().unwrap().push(Entry::CallEnd { mon_id: u64::MAX, mon_bytes: Vec::new(), ok: true });
 				},
 				_ => {
-					connect_blocks(&nodes[0], 1);
-					connect_blocks(&nodes[1], 1);
+					if rng.below(2) == 0 {
+						connect_blocks(&nodes[0], 1);
+						connect_blocks(&nodes[1], 1);
+					} else {
+						// a full re-persist of the current in-memory monitor, as ChainMonitor does on chain sync
+						let mon = nodes[0].chain_monitor.chain_monitor.get_monitor(chan_id).unwrap();
+						let name = mon.persistence_key();
+						let _ = Persist::update_persisted_channel(&persister, name, None, &*mon);
+					}
 				},
 			}
 		}
@@ -546,77 +556,123 @@ fn run_h1(_seed: u64) {
 	let u0 = chanmon_cfgs.remove(0);
 	let (logger, keys_manager, tx_broadcaster, fee_estimator) =
 		(Arc::new(u0.logger), Arc::new(u0.keys_manager), Arc::new(u0.tx_broadcaster), Arc::new(u0.fee_estimator));
-	for scenario in ["in-order", "out-of-order"] {
-		let kv = Arc::new(AsyncStore::default());
-		let spawner = Arc::new(Spawner::default());
-		let persister = MonitorUpdatingPersisterAsync::new(
-			Arc::clone(&kv),
-			SpawnerRef(Arc::clone(&spawner)),
-			Arc::clone(&logger),
-			42,
-			Arc::clone(&keys_manager),
-			Arc::clone(&keys_manager),
-			Arc::clone(&tx_broadcaster),
-			Arc::clone(&fee_estimator),
-		);
-		let chain_source = test_utils::TestChainSource::new(bitcoin::Network::Testnet);
-		let cm = ChainMonitor::new_async_beta(
-			Some(&chain_source),
-			Arc::clone(&tx_broadcaster),
-			Arc::clone(&logger),
-			Arc::clone(&fee_estimator),
-			persister,
-			Arc::clone(&keys_manager),
-			keys_manager.get_peer_storage_key(),
-			false,
-		);
-		let st = cm.watch_channel(chan_id, monitor.clone()).unwrap();
-		let mkey = key(CHANNEL_MONITOR_PERSISTENCE_PRIMARY_NAMESPACE, "", &mon_key);
-		kv.complete(&mkey);
-		spawner.poll_all();
-		let ev0 = cm.release_pending_monitor_events().len();
-		// two updates in flight at once
-		let s1 = cm.update_channel(chan_id, &updates[0]);
-		let s2 = cm.update_channel(chan_id, &updates[1]);
-		spawner.poll_all();
-		let pend = kv.pending_keys();
-		let k1 = key(CHANNEL_MONITOR_UPDATE_PERSISTENCE_PRIMARY_NAMESPACE, &mon_key, &format!("{}", updates[0].update_id));
-		let k2 = key(CHANNEL_MONITOR_UPDATE_PERSISTENCE_PRIMARY_NAMESPACE, &mon_key, &format!("{}", updates[1].update_id));
-		if scenario == "in-order" {
-			kv.complete(&k1);
-		} else {
-			kv.complete(&k2);
-		}
-		spawner.poll_all();
-		let reported: Vec<String> = cm
-			.release_pending_monitor_events()
-			.iter()
-			.flat_map(|e| {
-				e.2.iter()
-					.map(|x| match x {
-						lightning::chain::channelmonitor::MonitorEvent::Completed { monitor_update_id, .. } => format!("Completed({})", monitor_update_id),
-						_ => "other".to_string(),
-					})
-					.collect::<Vec<_>>()
-			})
-			.collect();
-		// crash: only what is durable survives
-		let snap = RecStore::new(None);
-		*snap.map.lock().unwrap() = kv.durable.lock().unwrap().clone();
-		let durable_keys: Vec<String> = snap.map.lock().unwrap().keys().map(|k| format!("{}/{}/{}", k.0, k.1, if k.2.len() > 8 { "<mon>" } else { &k.2 })).collect();
-		let p2 = MonitorUpdatingPersister::new(&snap, &*logger, 42, &*keys_manager, &*keys_manager, &*tx_broadcaster, &*fee_estimator);
-		let res = panic::catch_unwind(AssertUnwindSafe(|| p2.read_all_channel_monitors_with_updates()));
-		let out = match res {
-			Err(e) => format!("PANIC:{}", panic_msg(e).replace(' ', "_")),
-			Ok(Err(e)) => format!("ERR:{}", format!("{}", e).replace(' ', "_")),
-			Ok(Ok(v)) => format!("OK:{}", v.iter().map(|(_, m)| format!("{}", m.get_latest_update_id())).collect::<Vec<_>>().join(",")),
-		};
-		println!(
-			"R h1 scenario={} watch={:?} events_after_new={} update_status={:?},{:?} pending_after_issue={} reported_persisted={:?} durable=[{}] recovery={}",
-			scenario, st, ev0, s1, s2, pend.len(), reported, durable_keys.join(" "), out
-		);
-		std::mem::forget(cm);
+	// in-memory monitors as of each update id
+	let mut mems: Vec<ChannelMonitor<TestChannelSigner>> = vec![monitor.clone()];
+	for u in updates.iter().take(4) {
+		let m2 = mems.last().unwrap().clone();
+		m2.update_monitor(u, &&*tx_broadcaster, &&*fee_estimator, &&*logger).unwrap();
+		mems.push(m2);
 	}
+	for maxp in [42u64, 2u64] {
+		// issue the monitor and four updates; then complete an arbitrary subset of the pending writes
+		// (same-key writes in issue order, different keys freely), crash, recover
+		let npend_probe = 4usize;
+		for mask in 0u32..(1 << npend_probe) {
+			let kv = Arc::new(AsyncStore::default());
+			let spawner = Arc::new(Spawner::default());
+			let persister = MonitorUpdatingPersisterAsync::new(
+				Arc::clone(&kv),
+				SpawnerRef(Arc::clone(&spawner)),
+				Arc::clone(&logger),
+				maxp,
+				Arc::clone(&keys_manager),
+				Arc::clone(&keys_manager),
+				Arc::clone(&tx_broadcaster),
+				Arc::clone(&fee_estimator),
+			);
+			let chain_source = test_utils::TestChainSource::new(bitcoin::Network::Testnet);
+			let cm = ChainMonitor::new_async_beta(
+				Some(&chain_source),
+				Arc::clone(&tx_broadcaster),
+				Arc::clone(&logger),
+				Arc::clone(&fee_estimator),
+				persister,
+				Arc::clone(&keys_manager),
+				keys_manager.get_peer_storage_key(),
+				false,
+			);
+			let _ = cm.watch_channel(chan_id, monitor.clone()).unwrap();
+			let mkey = key(CHANNEL_MONITOR_PERSISTENCE_PRIMARY_NAMESPACE, "", &mon_key);
+			kv.complete(&mkey);
+			spawner.poll_all();
+			let _ = cm.release_pending_monitor_events();
+			for u in updates.iter().take(4) {
+				let _ = cm.update_channel(chan_id, u);
+			}
+			spawner.poll_all();
+			let pend = kv.pending_keys();
+			// choose which pending writes complete; a same-key write completes only after its predecessors
+			let mut chosen: Vec<Key> = Vec::new();
+			let mut blocked: Vec<Key> = Vec::new();
+			let mut desc = Vec::new();
+			for (pi, k) in pend.iter().enumerate() {
+				let want = (mask >> pi) & 1 == 1;
+				if want && !blocked.contains(k) {
+					chosen.push(k.clone());
+					desc.push(if k.0 == CHANNEL_MONITOR_PERSISTENCE_PRIMARY_NAMESPACE { "M".to_string() } else { format!("U{}", k.2) });
+				} else {
+					blocked.push(k.clone());
+				}
+			}
+			for k in chosen.iter() {
+				kv.complete(k);
+			}
+			spawner.poll_all();
+			spawner.poll_all();
+			let mut reported: Vec<u64> = Vec::new();
+			for e in cm.release_pending_monitor_events().iter() {
+				for x in e.2.iter() {
+					if let lightning::chain::channelmonitor::MonitorEvent::Completed { monitor_update_id, .. } = x {
+						reported.push(*monitor_update_id);
+					}
+				}
+			}
+			let snap = RecStore::new(None);
+			*snap.map.lock().unwrap() = kv.durable.lock().unwrap().clone();
+			// expectation: the stored monitor, then the consecutive run of durable updates
+			let stored_id = {
+				let m = snap.map.lock().unwrap();
+				read_monitor_sentinel(m.get(&mkey).unwrap(), &keys_manager).map(|(_, mm)| mm.get_latest_update_id()).unwrap_or(u64::MAX)
+			};
+			let mut expect = stored_id;
+			loop {
+				let k = key(CHANNEL_MONITOR_UPDATE_PERSISTENCE_PRIMARY_NAMESPACE, &mon_key, &format!("{}", expect + 1));
+				if snap.map.lock().unwrap().contains_key(&k) {
+					expect += 1;
+				} else {
+					break;
+				}
+			}
+			let p2 = MonitorUpdatingPersister::new(&snap, &*logger, maxp, &*keys_manager, &*keys_manager, &*tx_broadcaster, &*fee_estimator);
+			let res = panic::catch_unwind(AssertUnwindSafe(|| p2.read_all_channel_monitors_with_updates()));
+			let (out, eq) = match res {
+				Err(e) => (format!("PANIC:{}", panic_msg(e).replace(' ', "_")), 0),
+				Ok(Err(e)) => (format!("ERR:{}", format!("{}", e).replace(' ', "_")), 0),
+				Ok(Ok(v)) => {
+					if v.len() != 1 {
+						(format!("COUNT:{}", v.len()), 0)
+					} else {
+						let id = v[0].1.get_latest_update_id();
+						let idx = (id - base_id) as usize;
+						let eq = if idx < mems.len() && mems[idx] == v[0].1 { 1 } else { 0 };
+						(format!("OK:{}", id), eq)
+					}
+				},
+			};
+			println!(
+				"R h1 maxp={} mask={} pending={} completed=[{}] reported={:?} stored_id={} expect_id={} recovery={} eq={}",
+				maxp, mask, pend.len(), desc.join(","), reported, stored_id, expect, out, eq
+			);
+			std::mem::forget(cm);
+		}
+	}
+}
+
+fn read_monitor_sentinel(
+	bytes: &[u8], keys: &test_utils::TestKeysInterface,
+) -> Option<(BlockLocator, ChannelMonitor<TestChannelSigner>)> {
+	let b = if bytes.starts_with(&[0xFF, 0xFF]) { &bytes[2..] } else { bytes };
+	read_monitor(b, keys)
 }
 
 fn main() {
